@@ -2,6 +2,7 @@
 package c12
 
 import (
+	"context"
 	"crypto/sha256"
 	"encoding/hex"
 	"fmt"
@@ -13,6 +14,8 @@ import (
 
 	"github.com/zmap/zcrypto/verifier"
 	"github.com/zmap/zcrypto/x509"
+	"github.com/zmap/zcrypto/x509/pkix"
+	"github.com/zmap/zcrypto/x509/revocation/crl"
 	"github.com/zmap/zcrypto/x509/revocation/google"
 	"github.com/zmap/zcrypto/x509/revocation/mozilla"
 
@@ -21,12 +24,18 @@ import (
 	"zv/props/c11"
 )
 
-// line: c12 <specs> <verify-matrix> <start> <time> <name> <onecrl> <crlset> <ops>
-//   time    seconds relative to c10.Epoch
+// line: c12 <specs> <verify-matrix> <start> <time> <name> <onecrl> <crlset> [<rev>] <ops>
+//   time    <t> | <t>@<t> | z@<t>   with <t> = <sec> | <sec>n<nsec>, seconds relative to c10.Epoch.
+//           Before '@': VerifyTime ("z" = time.Time{}); after '@': the clock reading the MODEL uses when VerifyTime
+//           is zero (the harness checks the machine clock lies on the same side of every certificate boundary)
+//   rev     -  |  <ShouldCheckOCSP><ShouldCheckCRL><len OCSPServer><len CRLDistributionPoints>/<provider>
+//           provider: n (nil: defaultRevocation, run under an already cancelled context)
+//                   | s<r><i><e><r><i><e>  stub answering CheckOCSP / CheckCRL with (isRevoked, info id or 0 = nil, err)
 //   name    -  |  e<n> ("h<n>.test")  |  w<n> ("x.d<n>.test")  |  v<n> ("x.y.d<n>.test")  |  b<n> ("d<n>.test")  |  c<n> ("n<n>")
 //   onecrl  -  |  o/<iss.serial+…|->/<subj.key+…|->     (issuer-name+serial entries / blocked subject+key entries)
 //   crlset  -  |  g/<key.serial+…|->/<key+…|->           (issuer-SPKI+serial entries / blocked SPKIs)
 // output: exp=<0|1> cur=<chains> old=<chains> nev=<chains> vae=<chains> par=<fps> rev=<0|1> type=<t> name=<na|ok|err> psk=<s:k|->
+//         [ocsp=<skip|nil|s:k|?>:<r><i><e> crl=<skip|call|?>:<r><i><e>]   (only with a <rev> other than "-")
 
 func hostname(tok string) string {
 	if tok == "-" {
@@ -163,6 +172,102 @@ func chainsStr(cs [][]int) string {
 	return s[strings.Index(s, " ")+1:]
 }
 
+// tm: an instant as (seconds relative to c10.Epoch, nanoseconds)
+type tm struct{ sec, nsec int64 }
+
+// zeroRel: time.Time{} relative to c10.Epoch
+const zeroRel = -62135596800 - c10.Epoch
+
+func parseTm(s string) tm {
+	f := strings.Split(s, "n")
+	t := tm{}
+	t.sec, _ = strconv.ParseInt(f[0], 10, 64)
+	if len(f) > 1 {
+		t.nsec, _ = strconv.ParseInt(f[1], 10, 64)
+	}
+	return t
+}
+
+func (t tm) ns() *big.Int {
+	x := new(big.Int).Mul(big.NewInt(t.sec), big.NewInt(1000000000))
+	return x.Add(x, big.NewInt(t.nsec))
+}
+
+// lt: a is strictly before b on the line of real time (nanoseconds; independent of time.Time)
+func lt(a, b tm) bool { return a.ns().Cmp(b.ns()) < 0 }
+
+func (t tm) goTime() time.Time { return time.Unix(c10.Epoch+t.sec, t.nsec) }
+
+func fromGo(t time.Time) tm { return tm{t.Unix() - c10.Epoch, int64(t.Nanosecond())} }
+
+type ans struct {
+	revoked bool
+	info    int
+	err     bool
+}
+
+func parseAns(s string) ans { return ans{s[0] == '1', int(s[1] - '0'), s[2] == '1'} }
+
+type ctxKey struct{}
+
+// stub: a RevocationProvider with scripted answers that records how it was called
+type stub struct {
+	ocsp, crl           ans
+	ocspCalls, crlCalls int
+	ocspCert, crlCert   *x509.Certificate
+	ocspIssuer          *x509.Certificate
+	crlList             *pkix.CertificateList
+	ctxOK               bool
+	ocspInfo, crlInfo   *verifier.RevocationInfo
+	ocspErr, crlErr     error
+}
+
+func (a ans) values() (bool, *verifier.RevocationInfo, error) {
+	var info *verifier.RevocationInfo
+	if a.info != 0 {
+		info = &verifier.RevocationInfo{Reason: crl.RevocationReasonCode(a.info)}
+	}
+	var err error
+	if a.err {
+		err = fmt.Errorf("stub provider error")
+	}
+	return a.revoked, info, err
+}
+
+func (s *stub) CheckOCSP(ctx context.Context, c *x509.Certificate, issuer *x509.Certificate) (bool, *verifier.RevocationInfo, error) {
+	s.ocspCalls++
+	s.ocspCert, s.ocspIssuer = c, issuer
+	s.ctxOK = s.ctxOK && ctx.Value(ctxKey{}) == "c12"
+	var r bool
+	r, s.ocspInfo, s.ocspErr = s.ocsp.values()
+	return r, s.ocspInfo, s.ocspErr
+}
+
+func (s *stub) CheckCRL(ctx context.Context, c *x509.Certificate, certList *pkix.CertificateList) (bool, *verifier.RevocationInfo, error) {
+	s.crlCalls++
+	s.crlCert, s.crlList = c, certList
+	s.ctxOK = s.ctxOK && ctx.Value(ctxKey{}) == "c12"
+	var r bool
+	r, s.crlInfo, s.crlErr = s.crl.values()
+	return r, s.crlInfo, s.crlErr
+}
+
+func showAns(r bool, info *verifier.RevocationInfo, err error) string {
+	out := "0"
+	if r {
+		out = "1"
+	}
+	if info == nil {
+		out += "-"
+	} else {
+		out += strconv.Itoa(int(info.Reason))
+	}
+	if err != nil {
+		return out + "1"
+	}
+	return out + "0"
+}
+
 type class int
 
 const (
@@ -172,7 +277,7 @@ const (
 )
 
 // refClass: valid now / valid at some time / never, from the definition (intersection of validity periods, open interval).
-func refClass(u *c10.Universe, ch []int, now int64) class {
+func refClass(u *c10.Universe, ch []int, now tm) class {
 	lo, hi := int64(-1<<62), int64(1<<62)
 	for _, i := range ch {
 		if u.Specs[i].NB > lo {
@@ -183,7 +288,7 @@ func refClass(u *c10.Universe, ch []int, now int64) class {
 		}
 	}
 	switch {
-	case lo < now && now < hi:
+	case lt(tm{lo, 0}, now) && lt(now, tm{hi, 0}):
 		return current
 	case lo < hi:
 		return expired
@@ -193,15 +298,34 @@ func refClass(u *c10.Universe, ch []int, now int64) class {
 
 func exec(line string) zv.Out {
 	f := strings.Fields(line)
-	if len(f) != 9 {
+	if len(f) != 9 && len(f) != 10 {
 		panic("bad c12 line")
+	}
+	revTok := "-"
+	if len(f) == 10 {
+		revTok = f[8]
+		f = append(f[:8:8], f[9])
 	}
 	u := c10.Load(f[1])
 	if p := u.SelfCheck(); p != "" {
 		return zv.Out{Go: "harness-error", Viol: p}
 	}
 	start, _ := strconv.Atoi(f[3])
-	now, _ := strconv.ParseInt(f[4], 10, 64)
+	// VerifyTime, and the clock reading of the line
+	var vt time.Time
+	var clk tm
+	tf := strings.Split(f[4], "@")
+	if tf[0] != "z" {
+		vt = parseTm(tf[0]).goTime()
+	}
+	if len(tf) > 1 {
+		clk = parseTm(tf[1])
+	}
+	zeroVT := tf[0] == "z" || parseTm(tf[0]) == tm{zeroRel, 0} // the instants for which IsZero() holds, by definition
+	now := clk
+	if !zeroVT {
+		now = parseTm(tf[0])
+	}
 	nameTok := f[5]
 	ops := c10.ParseOps(f[8])
 	rev := buildRev(u, f[6], f[7])
@@ -219,8 +343,51 @@ func exec(line string) zv.Out {
 	c := u.Certs[start]
 	spec := u.Specs[start]
 	v := verifier.NewVerifier(rg, nil)
-	opts := verifier.VerificationOptions{VerifyTime: time.Unix(c10.Epoch+now, 0), Name: hostname(nameTok), OneCRL: rev.one, CRLSet: rev.set}
-	res := v.Verify(c, opts)
+	opts := verifier.VerificationOptions{VerifyTime: vt, Name: hostname(nameTok), OneCRL: rev.one, CRLSet: rev.set}
+	var st *stub
+	nOCSP, nCDP := 0, 0
+	if revTok != "-" {
+		rf := strings.Split(revTok, "/")
+		opts.ShouldCheckOCSP, opts.ShouldCheckCRL = rf[0][0] == '1', rf[0][1] == '1'
+		nOCSP, nCDP = int(rf[0][2]-'0'), int(rf[0][3]-'0')
+		// the parsed values of the AIA / CRL distribution point extensions (parsing them is not C12's subject)
+		for i := 0; i < nOCSP; i++ {
+			c.OCSPServer = append(c.OCSPServer, fmt.Sprintf("http://ocsp%d.invalid/", i))
+		}
+		for i := 0; i < nCDP; i++ {
+			c.CRLDistributionPoints = append(c.CRLDistributionPoints, fmt.Sprintf("http://crl%d.invalid/x.crl", i))
+		}
+		if rf[1][0] == 's' {
+			st = &stub{ocsp: parseAns(rf[1][1:4]), crl: parseAns(rf[1][4:7]), ctxOK: true}
+			opts.RevocationProvider = st
+		}
+	}
+	var res *verifier.VerificationResult
+	t0 := time.Now()
+	switch {
+	case revTok == "-":
+		res = v.Verify(c, opts)
+	case st != nil:
+		res = v.VerifyWithContext(context.WithValue(context.Background(), ctxKey{}, "c12"), c, opts)
+	default:
+		// defaultRevocation: no HTTP request may leave the machine; a cancelled context makes every request fail at once
+		ctx, cancel := context.WithCancel(context.Background())
+		cancel()
+		res = v.VerifyWithContext(ctx, c, opts)
+	}
+	t1 := time.Now()
+	if zeroVT {
+		// the model's clock and the machine's clock must be on the same side of every boundary the code compares with
+		for i, sp := range u.Specs {
+			for _, b := range []int64{sp.NB, sp.NA} {
+				for _, real := range []tm{fromGo(t0), fromGo(t1)} {
+					if lt(tm{b, 0}, clk) != lt(tm{b, 0}, real) || lt(clk, tm{b, 0}) != lt(real, tm{b, 0}) {
+						return zv.Out{Go: "harness-error", Viol: fmt.Sprintf("harness: the machine clock %v and the clock %v of the line are on different sides of boundary %d of certificate %d", real, clk, b, i)}
+					}
+				}
+			}
+		}
+	}
 
 	conv := func(cs []x509.CertificateChain) [][]int {
 		l, p := c11.ChainsToIdx(u, cs)
@@ -270,6 +437,26 @@ func exec(line string) zv.Out {
 	}
 	out := fmt.Sprintf("exp=%s cur=%s old=%s nev=%s vae=%s par=%s rev=%s type=%s name=%s psk=%s",
 		b(res.Expired), chainsStr(cur), chainsStr(old), chainsStr(nev), chainsStr(vae), parStr, b(res.InRevocationSet), typ, nameOut, psk)
+	if revTok != "-" {
+		oc, cc := "?", "?"
+		if st != nil {
+			oc, cc = "skip", "skip"
+			if st.ocspCalls > 0 {
+				oc = "nil"
+				if st.ocspIssuer != nil {
+					oc = "?"
+					if i := u.CertIndex(st.ocspIssuer); i >= 0 {
+						oc = c10.NodeKey{S: u.Specs[i].Subj, K: u.Specs[i].Key}.String()
+					}
+				}
+			}
+			if st.crlCalls > 0 {
+				cc = "call"
+			}
+		}
+		out += fmt.Sprintf(" ocsp=%s:%s crl=%s:%s", oc, showAns(res.OCSPRevoked, res.OCSPRevocationInfo, res.OCSPCheckError),
+			cc, showAns(res.CRLRevoked, res.CRLRevocationInfo, res.CRLCheckError))
+	}
 
 	// ---- T3: the property's sentence on the result alone ----
 	walked := c11.Reference(u, g, start) // independent enumeration (validated against WalkChains by C11)
@@ -297,14 +484,14 @@ func exec(line string) zv.Out {
 	}
 	var wantVae [][]int
 	for _, ch := range walked {
-		if refClass(u, ch, spec.NA-1) == current {
+		if refClass(u, ch, tm{spec.NA - 1, 0}) == current {
 			wantVae = append(wantVae, ch)
 		}
 	}
 	if c11.Canon(vae) != c11.Canon(wantVae) {
 		set("valid-at-expiration chains %s, expected %s", c11.Canon(vae), c11.Canon(wantVae))
 	}
-	wantExpired := !(spec.NB < now && now < spec.NA)
+	wantExpired := !(lt(tm{spec.NB, 0}, now) && lt(now, tm{spec.NA, 0}))
 	if res.Expired != wantExpired {
 		set("Expired=%v", res.Expired)
 	}
@@ -340,13 +527,23 @@ func exec(line string) zv.Out {
 	if nameTok != "-" && (res.NameError == nil) != refNameOK(spec, nameTok) {
 		set("NameError=%v for name %s", res.NameError, hostname(nameTok))
 	}
-	listed := false
+	// "lists the certificate": an issuer+serial entry of its issuer; a Blocked entry with its subject and the SHA-256
+	// of ITS SubjectPublicKeyInfo bytes (a key id is one encoding; what Firefox's blocklist compares); a CRLSet
+	// entry under the SubjectPublicKeyInfo bytes of one of its parents.
+	listed, twinTag := false, ""
 	if rev.one != nil {
 		for _, p := range rev.oneSerial {
 			listed = listed || (p.a == spec.Iss && p.b == spec.Serial)
 		}
 		for _, p := range rev.oneBlocked {
 			listed = listed || (p.a == spec.Subj && p.b == spec.Key)
+			if p.a == spec.Subj && canonKey(p.b) == canonKey(spec.Key) && spec.Key >= c10.RSABase {
+				if p.b == spec.Key {
+					twinTag += " twin-entry=own-encoding"
+				} else {
+					twinTag += " twin-entry=other-encoding"
+				}
+			}
 		}
 	}
 	if rev.set != nil {
@@ -363,12 +560,55 @@ func exec(line string) zv.Out {
 	if res.InRevocationSet != listed {
 		set("InRevocationSet=%v but the supplied sets list the certificate: %v", res.InRevocationSet, listed)
 	}
+	// ---- T3: revocation switches ----
+	ocspDue, crlDue := opts.ShouldCheckOCSP && nOCSP > 0, opts.ShouldCheckCRL && nCDP > 0
+	if st != nil {
+		if st.ocspCalls > 1 || st.crlCalls > 1 || (st.ocspCalls == 1) != ocspDue || (st.crlCalls == 1) != crlDue {
+			set("provider called CheckOCSP %d / CheckCRL %d times; the switches say %v / %v", st.ocspCalls, st.crlCalls, ocspDue, crlDue)
+		}
+		if !st.ctxOK {
+			set("provider called with another context")
+		}
+		if st.ocspCalls == 1 {
+			isParent := false
+			for _, p := range res.Parents {
+				isParent = isParent || p == st.ocspIssuer
+			}
+			if st.ocspCert != c || (len(res.Parents) == 0) != (st.ocspIssuer == nil) || (st.ocspIssuer != nil && !isParent) {
+				set("CheckOCSP called with the wrong certificate / an issuer that is not one of Parents")
+			}
+			if res.OCSPRevoked != st.ocsp.revoked || res.OCSPRevocationInfo != st.ocspInfo || res.OCSPCheckError != st.ocspErr {
+				set("OCSP fields are not the provider's answer")
+			}
+		}
+		if st.crlCalls == 1 {
+			if st.crlCert != c || st.crlList != nil {
+				set("CheckCRL called with the wrong certificate / a non-nil list")
+			}
+			if res.CRLRevoked != st.crl.revoked || res.CRLRevocationInfo != st.crlInfo || res.CRLCheckError != st.crlErr {
+				set("CRL fields are not the provider's answer")
+			}
+		}
+	} else if revTok != "-" {
+		if ocspDue && (res.OCSPCheckError == nil || res.OCSPRevoked || res.OCSPRevocationInfo != nil) {
+			set("defaultRevocation.CheckOCSP under a cancelled context did not answer (false, nil, error)")
+		}
+		if crlDue && (res.CRLCheckError == nil || res.CRLRevoked || res.CRLRevocationInfo != nil) {
+			set("defaultRevocation.CheckCRL under a cancelled context did not answer (false, nil, error)")
+		}
+	}
+	if !ocspDue && (res.OCSPRevoked || res.OCSPRevocationInfo != nil || res.OCSPCheckError != nil) {
+		set("OCSP fields set although the OCSP check is not due")
+	}
+	if !crlDue && (res.CRLRevoked || res.CRLRevocationInfo != nil || res.CRLCheckError != nil) {
+		set("CRL fields set although the CRL check is not due")
+	}
 	for _, p := range res.Parents {
 		if string(p.SPKISubjectFingerprint) != string(res.ParentSPKISubjectFingerprint) || string(p.RawSubjectPublicKeyInfo) != string(res.ParentSPKI) {
 			set("parents with different (SPKI, subject)")
 		}
 	}
-	if !res.VerifyTime.IsZero() || res.Name != opts.Name {
+	if res.Name != opts.Name {
 		// VerifyTime of the result is never filled in by VerifyWithContext; Name is copied
 		if res.Name != opts.Name {
 			set("Name not copied")
@@ -378,6 +618,43 @@ func exec(line string) zv.Out {
 	tags := []string{"type=" + typ, "name=" + nameOut, "rev=" + b(res.InRevocationSet), "exp=" + b(res.Expired),
 		fmt.Sprintf("cur=%d", min(len(cur), 4)), fmt.Sprintf("old=%d", min(len(old), 4)), fmt.Sprintf("nev=%d", min(len(nev), 4)),
 		fmt.Sprintf("vae=%d", min(len(vae), 4)), fmt.Sprintf("par=%d", min(len(par), 4))}
+	switch {
+	case tf[0] == "z":
+		tags = append(tags, "time=zero-value")
+	case zeroVT:
+		tags = append(tags, "time=zero-unix")
+	case now.nsec != 0:
+		tags = append(tags, "time=subsecond")
+		for _, sp := range u.Specs {
+			if now.sec == sp.NB || now.sec == sp.NA || now.sec == sp.NA-1 || now.sec == sp.NB-1 {
+				tags = append(tags, "time=subsecond-at-boundary")
+				break
+			}
+		}
+	default:
+		tags = append(tags, "time=whole")
+	}
+	if now.sec < zeroRel+10 {
+		tags = append(tags, "time=near-year-1")
+	}
+	tags = append(tags, strings.Fields(twinTag)...)
+	if spec.Key >= c10.RSABase {
+		tags = append(tags, fmt.Sprintf("start-key-alt-encoded=%v", canonKey(spec.Key) != spec.Key))
+	}
+	if revTok != "-" {
+		tags = append(tags, fmt.Sprintf("switch-ocsp=%v/urls=%d", opts.ShouldCheckOCSP, min(nOCSP, 2)), fmt.Sprintf("switch-crl=%v/urls=%d", opts.ShouldCheckCRL, min(nCDP, 2)))
+		if st != nil {
+			tags = append(tags, "provider=stub")
+			if st.ocspCalls == 1 {
+				tags = append(tags, fmt.Sprintf("ocsp-issuer-nil=%v", st.ocspIssuer == nil), "ocsp-answer="+showAns(st.ocsp.values()))
+			}
+			if st.crlCalls == 1 {
+				tags = append(tags, "crl-answer="+showAns(st.crl.values()))
+			}
+		} else {
+			tags = append(tags, "provider=default-offline", fmt.Sprintf("default-ocsp-due=%v/parents=%v", ocspDue, len(par) > 0), fmt.Sprintf("default-crl-due=%v", crlDue))
+		}
+	}
 	// entries sharing the component the lookup starts with, and where among them the certificate's own entry is
 	share := func(label string, ps []pair, a int, own func(pair) bool) {
 		n, pos := 0, -1
@@ -415,6 +692,13 @@ func exec(line string) zv.Out {
 		}
 	}
 	return zv.Out{Go: out, Viol: viol, Tags: tags}
+}
+
+func canonKey(k int) int {
+	if k >= c10.RSABase && (k-c10.RSABase)%2 == 1 {
+		return k - 1
+	}
+	return k
 }
 
 var nbs = []int64{-1000, -1000, -1000, -1000, -1000, -1000, -10, -1, 0, 1, 10}
@@ -557,8 +841,107 @@ func gen(g *zv.Gen) {
 				g.Emitf("c12 %s %s %d %d - %s %s %s", tok, vm, start, 5, one, set, c10.FormatOps(ops))
 			}
 			sharedSeq++
+			// Sub-second verification times: 1 ns / half a second / 999999999 ns into the seconds around the
+			// certificate's own boundaries (NotBefore, NotAfter, NotAfter-1 s) and around a boundary of another certificate.
+			o := cs[r.Intn(len(cs))]
+			for _, sec := range []int64{s.NB - 1, s.NB, s.NA - 2, s.NA - 1, s.NA, []int64{o.NB - 1, o.NB, o.NA - 1, o.NA}[r.Intn(4)]} {
+				ns := []int64{1, 500000000, 999999999}[r.Intn(3)]
+				if g.Quick && !r.Chance(35) {
+					continue
+				}
+				g.Emitf("c12 %s %s %d %dn%d - - - - %s", tok, vm, start, sec, ns, c10.FormatOps(ops))
+			}
+			// Revocation switches: every flag / URL-count combination over a run, a stub provider with scripted
+			// answers (also revoked together with an error, an error with info) or the default provider offline.
+			nrev := g.N(2, 10)
+			for k := 0; k < nrev; k++ {
+				t := int64(5) // most periods contain it: parents exist, the issuer argument is not nil
+				if r.Chance(30) {
+					t = times[r.Intn(len(times))]
+				}
+				g.Emitf("c12 %s %s %d %d - - - %s %s", tok, vm, start, t, revToken(r, revSeq), c10.FormatOps(ops))
+				revSeq++
+			}
+		}
+		// The zero VerifyTime: the same graph with validity periods that end long before (2020) or long after (2045+)
+		// any run of this harness, verified with time.Time{} (=> time.Now()), with the Unix instant that IsZero() also
+		// accepts, and with the instants 1 ns / 1 s around it (which are NOT zero: the year 1 is outside every period).
+		if i%4 == 0 {
+			zs := append([]c10.CertSpec{}, cs...)
+			for j := range zs {
+				zs[j].NB = []int64{-1000, -1000, -1000, 800000000}[r.Intn(4)]
+				zs[j].NA = []int64{1000, 900000000, 900000000, 900000000}[r.Intn(4)]
+			}
+			ztok := c10.FormatSpecs(zs)
+			zvm := c10.Load(ztok).VerifyMatrix()
+			start := r.Intn(len(zs))
+			clk := 2000 + r.Intn(700000000)
+			clkNs := []int{0, 1, 999999999}[r.Intn(3)]
+			for _, vt := range []string{"z", strconv.Itoa(zeroRel), fmt.Sprintf("%dn1", zeroRel), strconv.Itoa(zeroRel + 1), strconv.Itoa(zeroRel - 1), fmt.Sprintf("%dn999999999", zeroRel-1)} {
+				g.Emitf("c12 %s %s %d %s@%dn%d - - - - %s", ztok, zvm, start, vt, clk, clkNs, c10.FormatOps(ops))
+			}
+			// the clock is not consulted when VerifyTime is set: the same instant given explicitly, and an instant in 2020
+			g.Emitf("c12 %s %s %d %dn%d - - - - %s", ztok, zvm, start, clk, clkNs, c10.FormatOps(ops))
+			g.Emitf("c12 %s %s %d 5@%d - - - - %s", ztok, zvm, start, clk, c10.FormatOps(ops))
 		}
 	}
+	twinGen(g)
+}
+
+var revSeq int
+
+// revToken: flags and URL counts in rotation (so every combination occurs), provider answers at random.
+func revToken(r *zv.Rng, seq int) string {
+	so, sc := seq&1, (seq>>1)&1
+	uo, uc := (seq>>2)%3, (seq/12)%3
+	if r.Chance(60) { // most cases: both checks due
+		so, sc = 1, 1
+		uo, uc = 1+r.Intn(2), 1+r.Intn(2)
+	}
+	prov := "n"
+	if !r.Chance(15) {
+		a := func() string { return fmt.Sprintf("%d%d%d", r.Intn(2), r.Intn(4), r.Intn(2)) }
+		prov = "s" + a() + a()
+	}
+	return fmt.Sprintf("%d%d%d%d/%s", so, sc, uo, uc, prov)
+}
+
+// twinGen: certificates whose RSA key is carried in either SubjectPublicKeyInfo encoding (key id 101 = key id 100
+// without the NULL algorithm parameters). OneCRL.Check hashes the certificate's own SubjectPublicKeyInfo bytes
+// (before 8a7eec0: the RE-MARSHALLED key), CRLSet.Check is given the hash of the parent's bytes: an entry made
+// from the certificate's own encoding flags it, an entry made from the other encoding of the same key does not.
+func twinGen(g *zv.Gen) {
+	r := g.Rng
+	for _, rootKey := range []int{1, 100, 101} {
+		for _, leafKey := range []int{100, 101, 102, 103} {
+			cs := []c10.CertSpec{
+				{Subj: 0, Key: rootKey, Iss: 0, Sign: rootKey, CA: true, BC: true, MPL: -1, NB: -1000, NA: 1000, Serial: 1},
+				{Subj: 1, Key: leafKey, Iss: 0, Sign: rootKey, CA: r.Chance(50), BC: true, MPL: -1, NB: -1000, NA: 1000, Serial: 3},
+			}
+			tok := c10.FormatSpecs(cs)
+			vm := c10.Load(tok).VerifyMatrix()
+			ops := c10.FormatOps([]c10.Op{{Root: true, I: 0}, {I: 1}})
+			k0 := canonKey(leafKey)
+			for _, one := range []string{
+				fmt.Sprintf("o/-/1.%d", k0), fmt.Sprintf("o/-/1.%d", k0+1), fmt.Sprintf("o/-/1.%d+1.%d", k0, k0+1),
+				fmt.Sprintf("o/-/0.%d+1.%d", k0, (k0+2-100)%4+100), fmt.Sprintf("o/0.3/1.%d", k0+1), fmt.Sprintf("o/0.2/0.%d", k0+1)} {
+				g.Emitf("c12 %s %s 1 5 - %s - - %s", tok, vm, one, ops)
+			}
+			for _, set := range []string{
+				fmt.Sprintf("g/%d.3/-", rootKey), fmt.Sprintf("g/-/%d", rootKey), "g/7.3/8",
+				fmt.Sprintf("g/%d.3/-", twinOf(rootKey)), fmt.Sprintf("g/-/%d", twinOf(rootKey))} {
+				g.Emitf("c12 %s %s 1 5 - - %s - %s", tok, vm, set, ops)
+			}
+		}
+	}
+}
+
+// twinOf: the id of the other encoding of an RSA key (another key for ECDSA ids)
+func twinOf(k int) int {
+	if k >= c10.RSABase {
+		return k ^ 1
+	}
+	return k + 1
 }
 
 const sharedKinds = 6
@@ -652,5 +1035,5 @@ func sharedSets(r *zv.Rng, s c10.CertSpec, seq int) (one, set string) {
 
 func init() {
 	zv.Register(&zv.Prop{ID: "C12", Topic: "c12", Gen: gen, Exec: exec,
-		Rule: "real graphs (C10 structures and random universes) whose certificates have validity periods drawn from a small grid so that boundaries coincide; 2-3 start certificates per graph; verification times at -1/0/+1 s around every NotBefore/NotAfter of the universe; names matching / not matching the SAN or CN (exact, wildcard, wrong label count); OneCRL and CRLSet absent, empty, listing the certificate by issuer+serial / subject+key / parent SPKI+serial / blocked parent SPKI, or listing others; per (graph, certificate) six sets with 2-5 entries SHARING the component a lookup starts with (OneCRL blocked entries with the certificate's subject and different keys, OneCRL serials under its issuer, CRLSet serials under its signing key, several blocked SPKIs, and both lists together with foreign entries interleaved), the certificate's own entry at every position or absent; a case is one (graph, certificate, time, name, sets); T3 = the property's sentence evaluated on VerificationResult with an independent walk and classification"})
+		Rule: "real graphs (C10 structures and random universes) whose certificates have validity periods drawn from a small grid so that boundaries coincide; 2-3 start certificates per graph; verification times at -1/0/+1 s around every NotBefore/NotAfter of the universe; names matching / not matching the SAN or CN (exact, wildcard, wrong label count); OneCRL and CRLSet absent, empty, listing the certificate by issuer+serial / subject+key / parent SPKI+serial / blocked parent SPKI, or listing others; per (graph, certificate) six sets with 2-5 entries SHARING the component a lookup starts with (OneCRL blocked entries with the certificate's subject and different keys, OneCRL serials under its issuer, CRLSet serials under its signing key, several blocked SPKIs, and both lists together with foreign entries interleaved), the certificate's own entry at every position or absent; sub-second verification times (1 ns, 0.5 s, 999999999 ns into the seconds around NotBefore / NotAfter / NotAfter-1 s); the revocation switches (both flags x 0-2 OCSP URLs x 0-2 CRL distribution points in rotation, a stub RevocationProvider with all 16 answers (isRevoked, info or nil, error or nil) per check that records its calls, or the default provider under a cancelled context); the zero VerifyTime on graphs whose periods end in 2020 or after 2045 (time.Time{}, the Unix instant for which IsZero() holds, 1 ns / 1 s around it; the machine clock must lie in the same cell as the line's clock); a fixed stream of certificates whose RSA key is carried in the SubjectPublicKeyInfo encoding without NULL parameters, with OneCRL entries for either encoding and CRLSet entries for either encoding of the parent key; a case is one (graph, certificate, time, name, sets, switches); T3 = the property's sentence evaluated on VerificationResult with an independent walk and classification"})
 }
